@@ -126,6 +126,17 @@ pub fn main(args: &[String]) -> i32 {
             }
         }
     }
+    // every contiguous run of ones in the body (all 2628 bit ranges) under the own identifier: a field that is completely set (all lanes Fatal,
+    // every flag, the maximum of a counter) alone and together with its neighbours
+    for kind in 0..4 {
+        for lo in 0..72u32 {
+            for hi in lo..72u32 {
+                structured += 1;
+                let run = if hi - lo == 71 { (1u128 << 72) - 1 } else { ((1u128 << (hi - lo + 1)) - 1) << lo };
+                cmp(kind, &with_body(own[kind], run), &mut viol);
+            }
+        }
+    }
     // random: half with the right identifier (so that body bits decide), half fully random
     let mut rng = Rng::new(seed);
     let ids = [0xE0u8, 0xE8, 0xF0, 0xE4];
